@@ -1,7 +1,8 @@
 //! C16 correspondence harness: the real `reactive_stores` (Store, Subfield, AtIndex, KeyedSubfield, AtKeyed,
 //! Patch) + `reactive_graph` effects from /repo's working tree, driven by `hx_common::sched`.
 //!
-//! (/repo after fix-c16-1 `FieldKeys::new`, fix-c16-2 `AtIndex::writer`, fix-c16-3 `track_field`, fix-c16-4 `iter_unkeyed`.)
+//! (/repo after fix-c16-1 `FieldKeys::new`, fix-c16-2 `AtIndex::writer`, fix-c16-3 `track_field`, fix-c16-4 `iter_unkeyed`,
+//! fix-c16-5 `ArcField::from(Store)`, fix-c16-6 enum variant field segments.)
 //!
 //! Store shapes come from one fixed family of `#[derive(Store, Patch)]` types:
 //!   Root { a: u32, mid: Mid, opt: Option<Leaf>, list: Vec<Leaf>, #[store(key: u32 = |r| r.id)] rows: Vec<Row>,
